@@ -46,6 +46,8 @@ D_RULES = {
     'C11': dict(channels=['val'], keep=lambda d: ('-alias' in d['cls'] or ' s' in d['op']) and not is_fault(d)),
     'C14': dict(channels=['shape'], keep=lambda d: (' A' in d['impl'] or ' A' in d['model']) and not is_fault(d)),
     'C15': dict(channels=['iter', 'val'], keep=lambda d: ' in ' in d['op']),
+    # C18 reads no channel of the correspondence: it takes the std::terminate crashes of the real code (a noexcept function threw)
+    'C18': dict(channels=[], keep=lambda d: False),
 }
 
 PROPS = {p: MAP[p] for p in MAP if MAP[p].get('claimed')}
